@@ -109,7 +109,7 @@ def run_replay(prop, body):
   try:
     with tempfile.TemporaryDirectory(prefix='verif_replay_') as td:
       py = PY
-      if '_tvreplay' in body or 'import z3' in body:      # replays that need the svsem oracle run under the overlay venv (same pristine pymtl3)
+      if '_tvreplay' in body or 'import z3' in body or 'from checks.' in body:      # replays that need the svsem oracle run under the overlay venv (same pristine pymtl3)
         py = os.path.join(os.environ.get('VERIF_VENV', os.path.join(VERIF, '.venv')), 'bin', 'python')
         if not os.path.exists(py): py = sys.executable
       env['VERIF_SCRATCH'] = td
